@@ -29,7 +29,7 @@ TraceInit ==
     /\ pc = "idle" /\ args = [t |-> [kind |-> "none"]] /\ todoDel = {} /\ todoNew = {} /\ needRm = {} /\ pend = "-"
     /\ failed = {} /\ res = [kind |-> "none"] /\ touched = {} /\ act = [op |-> "Init"] /\ dev = {} /\ n = 0
 Step(a) ==
-    \/ a.op = "Begin" /\ Begin(TargetOf(a.t), a.force, a.relink, a.prompt, a.state)
+    \/ a.op = "Begin" /\ Begin(TargetOf(a.t), a.force, a.relink, a.prompt, a.state, a.sp)
     \/ a.op = "Remove" /\ (RemoveDel(a.k) \/ RemoveNew(a.k))
     \/ a.op = "Create" /\ (Create(a.k) \/ CreateDangling(a.k))
     \/ a.op = "Evict" /\ Evict(a.c)
